@@ -139,7 +139,7 @@ PROPS["C06"] = pbt(
                 "rejection, the data pointer must arrive unchanged, no decoy content may be visible, and a rejection "
                 "must yield the callback-failed code and no configuration/history."),
     level_note="trusts the lookup model; a key-less object left by the two-directory entry points after a failure is accepted (see DESIGN C06)",
-    quick={"cases": 60000},
+    quick={"cases": 160000},
     thorough={"cases": 1200000, "fuzz_runs": 200000, "fuzz_jobs": 8},
     floors={"with_rejection": 0.50, "rejected_not_first": 0.25, "rejected_masked": 0.03,
             "ep_readDirsWithCallback": 0.12, "ep_readDirsHistoryWithCallback": 0.12, "ep_readFileWithCallback": 0.08},
@@ -160,7 +160,7 @@ PROPS["C12"] = pbt(
                 "reconstruction of the result from the history with the public merge. 8k (quick) / 200k (thorough) "
                 "trees, 4-8 reads each."),
     level_note="trusts the lookup model for the expected member list; entry points are compared with each other, not with a model",
-    quick={"cases": 60000},
+    quick={"cases": 160000},
     thorough={"cases": 1200000, "fuzz_runs": 150000, "fuzz_jobs": 8},
     floors={"masked_member": 0.06, "null_or_empty_dir_arg": 0.05, "global_postfix_list": 0.08, "three_layers": 0.25},
 )
@@ -180,7 +180,7 @@ PROPS["C16"] = pbt(
                 "consulted file decides; 15k (quick) / 400k (thorough) cases, two reads each; requires root for the "
                 "foreign-owner half (evidence says so if not)."),
     level_note="trusts the lookup model for the consultation order; runs as root in this sandbox (chown/lchown)",
-    quick={"cases": 100000},
+    quick={"cases": 200000},
     thorough={"cases": 2000000, "fuzz_runs": 200000, "fuzz_jobs": 8},
     floors={"has_offender": 0.30, "offender_is_dropin": 0.15, "offender_is_masked": 0.004, "symlink_rule": 0.30,
             "offender_not_first": 0.08},
@@ -364,7 +364,7 @@ PROPS["C14"] = pbt(
 
 PROPS["C20"] = pbt(
     "pbt_c20", "pbt_c20.cpp", level="fault_enumeration", extra_sources=["common/cshim.c"],
-    env={"ASAN_OPTIONS": "exitcode=99:detect_leaks=1:quarantine_size_mb=16:abort_on_error=0:allocator_may_return_null=1"},
+    env={"ASAN_OPTIONS": "exitcode=99:detect_leaks=1:quarantine_size_mb=16:abort_on_error=0:allocator_may_return_null=1:malloc_context_size=10"},
     fill_differential=True,
     valgrind_sample={"quick": 150, "thorough": 3000},
     rule=("scenarios, each in a forked child: (a) API histories over three objects (constructors incl. option strings "
